@@ -16,8 +16,9 @@ EXPLANATION = (
     "the detection guards; a struct that contains a token inherits its detection set. Private helpers without a token "
     "propagate their requirement to all their callers. (mask) masked loads/stores outside arch/ take a mask built by "
     "first_n_mask from the residual length of the same slice, and the safe load/store wrappers compare the slice length "
-    "with the vector length in a non-debug assert. Agreement of results across ISAs and with scalar definitions is "
-    "numerical and not decided; aarch64 / wasm32 code is not type-checked on this host.")
+    "with the vector length in a non-debug assert. (float-to-int) to_int_round / to_int_trunc only on values clamped on both "
+    "sides or at reviewed sites; (min-max) generic float min / max have the x86 second-operand semantics and MaxNum / MinNum "
+    "keep a NaN accumulator. Agreement of results across ISAs beyond these clauses is numerical and not decided; aarch64 / wasm32 code is not type-checked on this host.")
 ASSUMPTIONS = ["x86 target-feature implication table as in rustc", "std_detect reports CPU features correctly", "only the x86_64 build is analysed"]
 
 IMPLIES = {'avx512vnni': ['avx512f'], 'avx512bw': ['avx512f'], 'avx512dq': ['avx512f'], 'avx512vl': ['avx512f'], 'avx512f': ['avx2', 'fma', 'f16c'],
